@@ -283,7 +283,17 @@ func buildPaths() []reqPath {
 		}
 		out = append(out, cur...)
 	}
-	return out
+	// the same request line can arise from two templates (an empty segment):
+	// keep the first
+	seen := map[string]bool{}
+	uniq := out[:0]
+	for _, p := range out {
+		if !seen[p.Wire] {
+			seen[p.Wire] = true
+			uniq = append(uniq, p)
+		}
+	}
+	return uniq
 }
 
 var methods = []string{"GET", "HEAD", "PUT", "POST", "DELETE", "PATCH", "OPTIONS", "FOO"}
@@ -539,17 +549,31 @@ func (c *pctx) evalHTTP(a *acc, w *httpWorld, q httpReq, pathIdx, methodIdx int)
 	if dumpFile != nil {
 		fmt.Fprintf(dumpFile, "%d\t%s\t%s\t%s\t%s\t%s\t%s\t%s\n", code, q.Method, q.Template, head(q.Path, 60), q.Cred, q.Ctype, q.Body, q.Precond)
 	}
-	rank := fmt.Sprintf("%04d%s|%s|%s|%s|%s", len(q.Path), q.Path, q.Cred, q.Ctype, q.Body, q.Precond)
+	odd := 0
+	for _, f := range strings.Fields(q.Class) {
+		if !strings.HasSuffix(f, "=existing") && !strings.HasSuffix(f, "=missing") && !strings.HasSuffix(f, "=unknown") {
+			odd++
+		}
+	}
+	rank := fmt.Sprintf("%d%04d%s|%s|%s|%s|%s", odd, len(q.Path), q.Path, q.Cred, q.Ctype, q.Body, q.Precond)
 	switch {
 	case err != nil:
 		// the server's request parser rejects this request line itself (400)
 		a.out(uint64(pathIdx)<<32 | uint64(methodIdx)<<16 | 0xFFFF)
 		return
 	case pi != nil:
-		c.violate(fmt.Sprintf("C12/panic/http/%s %s/%s:%s", q.Method, q.Template, pi.Func, pi.Kind),
-			fmt.Sprintf("%s %s (%scredentials %s, content-type %s, body %s, %s) panics in the handler: %s (in %s); net/http recovers the panic and closes the connection, the request gets no HTTP response",
-				q.Method, head(q.Path, 200), q.Class, q.Cred, q.Ctype, q.Body, orNone(q.Precond), pi.Val, pi.Func),
-			a.name, rank, q)
+		what := fmt.Sprintf("%s %s (%scredentials %s, content-type %s, body %s, %s) panics in the handler: %s (in %s); net/http recovers the panic and closes the connection, the request gets no HTTP response",
+			q.Method, head(q.Path, 200), q.Class, q.Cred, q.Ctype, q.Body, orNone(q.Precond), pi.Val, pi.Func)
+		site := pi.Func + ":" + pi.Kind
+		if c.httpPanics == nil {
+			c.httpPanics = map[string]map[string]ranked{}
+		}
+		if c.httpPanics[site] == nil {
+			c.httpPanics[site] = map[string]ranked{}
+		}
+		if old, ok := c.httpPanics[site][q.Method]; !ok || !rankLess(old.rank, rank) {
+			c.httpPanics[site][q.Method] = ranked{core.Violation{What: what, Sub: a.name, Replay: q}, rank}
+		}
 	case code < 100 || code >= 600:
 		c.violate(fmt.Sprintf("C12/no-status/http/%s %s", q.Method, q.Template),
 			fmt.Sprintf("%s %s produced status %d", q.Method, head(q.Path, 200), code), a.name, rank, q)
@@ -569,6 +593,27 @@ var dumpFile = func() *os.File {
 	}
 	return nil
 }()
+
+// flushHTTPPanics is called after all requests of one path: a panic site hit
+// under every method is one method-independent defect (METHOD "*").
+func (c *pctx) flushHTTPPanics(tmpl string) {
+	for site, byMethod := range c.httpPanics {
+		if len(byMethod) == len(methods) {
+			best := byMethod[methods[0]]
+			for _, m := range methods {
+				if r := byMethod[m]; !rankLess(best.rank, r.rank) {
+					best = r
+				}
+			}
+			c.violate(fmt.Sprintf("C12/panic/http/* %s/%s", tmpl, site), best.v.What+" (every method panics alike)", best.v.Sub, best.rank, best.v.Replay)
+			continue
+		}
+		for m, r := range byMethod {
+			c.violate(fmt.Sprintf("C12/panic/http/%s %s/%s", m, tmpl, site), r.v.What, r.v.Sub, r.rank, r.v.Replay)
+		}
+	}
+	c.httpPanics = nil
+}
 
 func orNone(s string) string {
 	if s == "" {
@@ -658,7 +703,9 @@ func runHTTPRequests(c *pctx, o *core.Options) {
 		if pi%o.Shards != o.Shard {
 			continue
 		}
-		if c.stop || !onePath(pi, p) {
+		ok := !c.stop && onePath(pi, p)
+		c.flushHTTPPanics(p.Tmpl)
+		if !ok {
 			a.exhaustive = false
 			break
 		}
@@ -752,7 +799,13 @@ func (c *pctx) evalFrag(a *acc, sessions []sdp.SessionDescription, in fragInput)
 		return nil
 	}()
 	if pi != nil {
-		cls := fmt.Sprintf("%d-lines", len(in.Lines))
+		cls := "multi-line"
+		for _, l := range in.Lines {
+			if fragLinePanics(l) {
+				cls = fmt.Sprintf("line=%q", l)
+				break
+			}
+		}
 		c.violate(fmt.Sprintf("C12/panic/sdpfrag.%s/%s:%s/%s", step, pi.Func, pi.Kind, cls),
 			fmt.Sprintf("sdpfrag %s panics on the fragment %q: %s (in %s); reached from PATCH /group/<g>/.whip/<id>", step, text, pi.Val, pi.Func),
 			a.name, fmt.Sprintf("%04d%s", len(text), text), in)
@@ -762,6 +815,18 @@ func (c *pctx) evalFrag(a *acc, sessions []sdp.SessionDescription, in fragInput)
 	if len(a.samples) < 2 && len(in.Lines) == 4 && strings.Contains(outcome, "cands=1") {
 		a.samples = append(a.samples, map[string]any{"fragment": text, "outcome": outcome})
 	}
+}
+
+// fragLinePanics: does this line alone crash Unmarshal?
+func fragLinePanics(l string) (p bool) {
+	defer func() {
+		if recover() != nil {
+			p = true
+		}
+	}()
+	var f sdpfrag.SDPFrag
+	f.Unmarshal([]byte(l + "\r\n"))
+	return false
 }
 
 func runSDPFrag(c *pctx, o *core.Options) {
@@ -829,6 +894,7 @@ func replayHTTP(sub string, artefact json.RawMessage) *core.Violation {
 		}
 		defer w.close()
 		c.evalHTTP(ac, w, q, 0, 0)
+		c.flushHTTPPanics(q.Template)
 	}
 	for _, r := range c.viols {
 		v := r.v
